@@ -70,6 +70,9 @@ def run(ctx):
             for _ in range(rng.randrange(1, 4)):
                 m = gens.mutate(rng, m)
             texts.append(m)
+    # keywords respelled with Unicode case twins (ſ ı İ K): re.I still matches them, the actions see a non-ASCII spelling
+    for f in list(gens.VALID_FILTERS) + gens.KEYWORD_FILTERS:
+        texts += gens.unicode_case_variants(f)
     pools = ["abcxyzEQ nd'(),/:=-+.0123456789{}", "ıİſK  ٠١é½\t\n{}%\\\"", "truefalsenullanyallnotindivmod "]
     for _ in range(60000 if ctx.thorough else 6000):
         k = rng.randrange(1, 14)
